@@ -238,7 +238,8 @@ def _c09() -> SimEngine:
 
 
 def _c10() -> SimEngine:
-    prof = profile(p_gname=0.6, gname_range=(3, 1), fnames=["w", "w", "x"], sizes=[1, 2, 3, None, None], min_steps=8,
+    # function names: a function's __name__ is any string ('<lambda>', names set by decorators, ...)
+    prof = profile(p_gname=0.6, gname_range=(3, 1), fnames=["w", "w", "x", "w", "x", "<lambda>", "job{7}", "a-group-1", "w%s", "{}", "x y", "a{{b}}"], sizes=[1, 2, 3, None, None], min_steps=8,
                    ops={"spawn": 10, "cancel_group": 3, "cancel_all": 0.5, "gate": 6, "cancel": 0.5, "flush": 0.3})
     return SimEngine(
         "C10",
@@ -315,9 +316,11 @@ def _c15() -> SimEngine:
     return SimEngine(
         "C15",
         "pool_size reads at every observation point and assignments (old/new pairs incl. equal, 0, inf, negative) with k running and w "
-        "waiting tasks. Non-trivial: an accepted assignment followed by further spawning, or an assignment/read on an occupied pool. "
+        "waiting tasks, on one or two pools of a process (further pools created mid-run). Non-trivial: an accepted assignment followed by further spawning, or an assignment/read on an occupied pool. "
         "Distinct = program hash.",
-        [("default", prof, 0.97), ("burst", dict(BURST, ops=dict(BURST["ops"], set_size=0.5)), 0.03)],
+        [("default", prof, 0.82), ("burst", dict(BURST, ops=dict(BURST["ops"], set_size=0.5)), 0.03),
+         # several pools in one process (also created mid-run): a limit belongs to one pool
+         ("two-pools", dict(prof, max_pools=2, ops=dict(prof["ops"], new_pool=1.0)), 0.15)],
         lambda case, l: bool(l & {"set_size:ok"}),
         n_quick=4000, n_thorough=200000, floors={"set_size:unoccupied": 0.2, "set_size:occupied": 0.2, "set_size:negative-rejected": 0.1})
 
